@@ -40,6 +40,19 @@ var c19Labels = []float64{0, 1, 2, 3, 0.5, 1.5, -1, 7, 1e6, -0.25}
 
 var c19Bad = []string{"nil-yp", "nil-yt", "nil-both", "rank0", "rank2", "len-mismatch", "rank-mixed"}
 
+// c19Batch draws a batch size: mostly small, sometimes large (any size is in
+// the quantifier; float round-trips only go wrong for particular sizes).
+func c19Batch(r *sim.Rand) int {
+	switch x := r.Intn(100); {
+	case x < 60:
+		return r.Range(1, 16)
+	case x < 90:
+		return r.Range(17, 64)
+	default:
+		return r.Range(65, 300)
+	}
+}
+
 func (c19) Generate(r *sim.Rand, tier string) *sim.Scenario {
 	sc := &sim.Scenario{Cfg: map[string]float64{}, Data: map[string][]float64{}}
 	ninst := r.Range(1, 3)
@@ -69,7 +82,7 @@ func (c19) Generate(r *sim.Rand, tier string) *sim.Scenario {
 		case r.Bool(0.25):
 			sc.Steps = append(sc.Steps, sim.Step{C: c, Op: "result", Out: -1})
 		default:
-			n := r.Range(1, 16)
+			n := c19Batch(r)
 			st := sim.Step{C: c, Op: "acc", N: n, B: r.Bool(0.3), Out: -1}
 			yp := make([]float64, n)
 			yt := make([]float64, n)
@@ -100,7 +113,7 @@ func (c19) Generate(r *sim.Rand, tier string) *sim.Scenario {
 		}
 		var part []float64
 		for rem := tot; rem > 0; {
-			n := r.Range(1, 16)
+			n := c19Batch(r)
 			if n > rem {
 				n = rem
 			}
